@@ -147,15 +147,14 @@ def _run(ctx, pid, thorough, rng, exe, tmp):
     # not constrain; the specification is run with those quirks on.  Known findings of *this* property are applied only
     # to executions the literal specification refuses: if the quirk explains the execution completely it is reported as
     # KNOWN-FINDING, otherwise as a violation.
-    allk = check.load_known_all()
-    other = sorted(k for p, d in allk.items() if p != pid for k in d if k in TRACK_QUIRKS)
-    own = {k: v for k, v in allk.get(pid, {}).items() if k in TRACK_QUIRKS}
-    def cfgtext(q): return open(os.path.join(tlc.SPEC, "Trace_Track.cfg")).read().replace("TQ = {}", "TQ = {%s}" % ", ".join('"%s"' % x for x in q))
+    base, own, other = check.quirk_cfg("Trace_Track.cfg", pid)
+    withown, _, _ = check.quirk_cfg("Trace_Track.cfg", pid, with_own=True)
+    own = {k: v for k, v in own.items() if k in TRACK_QUIRKS}
     ctx.cov["quirks_of_other_properties_applied"] = other
-    rej = check.validate_scripts(ctx, "Trace_Track.tla", "_tt.cfg", items, timeout=1800, batch=8, extra_files={"_tt.cfg": cfgtext(other)})
+    rej = check.validate_scripts(ctx, "Trace_Track.tla", "_tt.cfg", items, timeout=1800, batch=8, extra_files={"_tt.cfg": base})
     for s, ev, k, r in rej:
         if own:
-            acc, consumed, r2 = check.validate("Trace_Track.tla", "_tk.cfg", ev, timeout=900, extra_files={"_tk.cfg": cfgtext(other + sorted(own))}); tlc.cleanup(r2)
+            acc, consumed, r2 = check.validate("Trace_Track.tla", "_tk.cfg", ev, timeout=900, extra_files={"_tk.cfg": withown}); tlc.cleanup(r2)
             if acc:
                 for kk, vv in own.items(): ctx.known_finding(kk, vv)
                 ctx.cov["traces_validated_against_impl"] += 1
